@@ -69,6 +69,9 @@ def make_items():
     items.append(('samp-tid2', 3, tuple(WORDS[4:8]), None))
     # other records of the same thread between the header and the data records / between two data records
     items.append(('samp-mixed', 7, tuple(WORDS[2:10]), None))
+    # the first stack-data record stands in the stream AHEAD of the stack header (same window): the frames are still the first N
+    # words of the window's data records in stream order
+    items.append(('samp-data-first', 6, tuple(WORDS[2:10]), None))
     # a sample window whose END was lost (START, header, data, no END): the next sample of the thread must not inherit anything
     items.append(('samp-unfinished', 4, tuple(WORDS[8:12]), None))
     # stack headers whose own flag word has other declared bits set (PC fix-up, truncated, 64-bit, ...): the frames are still the first N words
@@ -116,6 +119,10 @@ def events_of(it):
         return sample_events(it[1], it[2], flags=1)
     if it[0] == 'samp-unfinished':
         return sample_events(it[1], it[2])[:-1]
+    if it[0] == 'samp-data-first':
+        evs = sample_events(it[1], it[2])
+        # PERF_Event S, UData, UHdr, UData, PERF_Event E
+        return evs[:1] + evs[2:3] + evs[1:2] + evs[3:]
     if it[0] == 'samp-mixed':
         evs = sample_events(it[1], it[2], flags=9)
         # PERF_Event S, UHdr, [THD_Data], UData, [unrelated], UData, PERF_Event E
@@ -177,7 +184,7 @@ def ref(seq):
             for a, u, kind in sorted(it[1], key=lambda x: (x[2] != 'a', x[0])):
                 if all(x != a for x, _ in imgs):
                     imgs.append((a, uuid.UUID(bytes=U[u])))
-        elif it[0] in ('samp', 'samp-tid2', 'samp-mixed', 'samp-hdr', 'samp-cross', 'samp-flags'):
+        elif it[0] in ('samp', 'samp-tid2', 'samp-mixed', 'samp-data-first', 'samp-hdr', 'samp-cross', 'samp-flags'):
             words = list(it[2]) + [0] * ((-len(it[2])) % 4)
             frames = words[:it[1]]
             fr = []
@@ -253,10 +260,10 @@ def judge_permutation(addr_uuid_set, perm, sample_idx):
 class C15(Check):
     pid = 'C15'
     level = 'model_checking'
-    rule = ('all histories of <=3 (quick) / <=4 (thorough) items over 35 item kinds: image announcements (4 addresses incl. adjacent '
+    rule = ('all histories of <=3 (quick) / <=4 (thorough) items over 36 item kinds: image announcements (4 addresses incl. adjacent '
             '0x2000/0x2001, x 2 uuids so that re-announcements with another identity occur), 4 launch windows with nested '
             'map/shared-cache records (cache above, below and between the images), samples with header count {0,1,3,4,5,9,14} x {0,1,2(+)} data records whose words are a-1, a, '
-            'a+1 for every load address plus 0 and 2^64-1, a sample without the user-stack flag, a sample on a second thread, a sample with thread-data and unrelated records between its header and data records, a sample window whose END was lost; plus deep stacks of 2^k-1..2^k+1 data records (k=6..12) after an announcement; '
+            'a+1 for every load address plus 0 and 2^64-1, a sample without the user-stack flag, a sample on a second thread, a sample with thread-data and unrelated records between its header and data records, a sample whose first data record stands ahead of its header, a sample window whose END was lost; plus deep stacks of 2^k-1..2^k+1 data records (k=6..12) after an announcement; '
             'through TracesParser+CallstacksParser (all histories) and through PyKdebugParser.callstacks on a v2 dump (histories '
             '<=2 quick / <=3 thorough). Plus all alternating histories announcement-sample-announcement-sample (depth 4) over every announcement and the samples with >=4 frames. Plus: for every set of <=4 distinct images all permutations of announcement order give '
             'identical attribution. Reference: linear scan over the list of announced (address, uuid), first identity wins. '
